@@ -30,6 +30,21 @@ type headField struct{ name, typ string }
 // fieldAlias: "<typeKey>.<path.to.leaf>" -> reference field name
 var fieldAlias = map[string]string{}
 
+var headTypeSet map[string]bool
+
+// headTypeKnown: the unexported type exists on the reference tree.
+func headTypeKnown(tk string) bool {
+	if headTypeSet == nil {
+		headTypeSet = map[string]bool{}
+		for _, ln := range strings.Split(headTypesTxt, "\n") {
+			if p := strings.SplitN(ln, "\t", 2); len(p) == 2 {
+				headTypeSet[p[0]] = true
+			}
+		}
+	}
+	return headTypeSet[tk]
+}
+
 func typeStr(t types.Type) string {
 	return aliasTypeNames(types.TypeString(t, func(p *types.Package) string { return shortPkg(p.Path()) }))
 }
@@ -87,13 +102,23 @@ func computeFieldAliases(P *Program) {
 		if len(p) != 3 || strings.HasPrefix(ln, "#") {
 			continue
 		}
-		head[p[0]] = append(head[p[0]], headField{p[1], p[2]})
+		dup := false
+		for _, h := range head[p[0]] {
+			if h.name == p[1] {
+				dup = true // (an alias declaration lists its struct twice)
+			}
+		}
+		if !dup {
+			head[p[0]] = append(head[p[0]], headField{p[1], p[2]})
+		}
 	}
+	done := map[string]bool{}
 	moduleStructs(P, func(tk string, n *types.Named, st *types.Struct) {
 		hf := head[tk]
-		if len(hf) == 0 {
+		if len(hf) == 0 || done[tk] {
 			return
 		}
+		done[tk] = true
 		direct := map[string]string{}
 		for i := 0; i < st.NumFields(); i++ {
 			direct[st.Field(i).Name()] = typeStr(st.Field(i).Type())
@@ -125,7 +150,11 @@ func computeFieldAliases(P *Program) {
 				}
 				if fn, ok := f.Type().(*types.Named); ok && depth < 3 {
 					if fs, ok := fn.Underlying().(*types.Struct); ok && fn.Obj().Pkg() != nil && inModule(fn.Obj().Pkg()) {
-						if _, known := head[typeKey(fn)]; !known || f.Embedded() {
+						_, known := head[typeKey(fn)]
+						if fn.Obj().Exported() || headTypeKnown(typeKey(fn)) {
+							known = true // (a type without unexported fields has no rows in the field table)
+						}
+						if !known || f.Embedded() {
 							// a struct value of a type the reference tree does not have (or an embedded one): its fields are
 							// the owner's fields
 							flatten(fs, path, depth+1)
